@@ -66,6 +66,14 @@ def gen_cases(ctx: Ctx):
     for i, s in enumerate(SYSTEMS):
         add(interp=its[i % len(its)], order=3, nv=8, tgrid=(0, 100, 5) if i % 2 else (0, 2, 5), system=s, keys=None,
             law="power", lattice=bool(i % 2))
+    # 3b. "every valid configuration": the two documented ignore flags switched on (alone and together) with the minimal table of
+    #     each non-triclinic system — the run must complete with every component the symmetry generates
+    flagsets = [{"ignore_residuals": True}, {"ignore_rank": True}, {"ignore_residuals": True, "ignore_rank": True}]
+    for i, s in enumerate(SYSTEMS):
+        if s == "triclinic": continue
+        if not ctx.thorough() and (i + ctx.seed) % 3 != 0: continue
+        add(interp="lsq_poly", order=3, nv=7, tgrid=(0, 100, 4), system=s, keys=None, law="power", lattice=bool(i % 2),
+            sym_flags=flagsets[i % 3])
     # 4. random mixtures
     n_rand = 250 if ctx.thorough() else 6
     for _ in range(n_rand):
@@ -86,6 +94,8 @@ def build(case, seed):
     tmin, dt, nt = case["tgrid"]
     settings = {"qha": {"settings": {"T_MIN": tmin, "DT": dt, "NT": nt, "DT_SAMPLE": dt, "NTV": 12, "DELTA_P": 1.0}},
                 "elast": {"settings": {"mode_gamma": {"interpolator": case["interp"], "order": case["order"]}}}}
+    if case.get("sym_flags"):
+        settings["elast"]["settings"]["symmetry"] = dict(case["sym_flags"])
     return synth.make_dataset(rng, nv=case["nv"], nq=case.get("nq", 2), na=case.get("na", 2), system=case.get("system"),
                               keys=case.get("keys"), lattice=case.get("lattice", False), law=case.get("law", "power"),
                               settings=settings)
